@@ -24,7 +24,7 @@ from frame.netlist.module import Module
 from frame.netlist.netlist import Netlist
 
 LEVEL = "proof"
-DRIVERS = ["drv_stog"]
+DRIVERS = ["drv_stog", "drv_netlist"]
 TRUSTED = [
     "Lean 4.33 kernel; Mathlib lemmas; axioms ⊆ {propext, Classical.choice, Quot.sound}",
     "hand-written model FV/Model/Stog.lean (+ FV/Model/Geom.lean) — fidelity to create_stog / find_location checked by this "
@@ -32,6 +32,10 @@ TRUSTED = [
     "a Python list of distinct Rectangle objects is modelled as a Lean list (identity = position); lists that contain the "
     "same object twice are outside the model",
     "theorems are over exact ordered fields; IEEE rounding is executed (F stream), never proved",
+    "Module.create_stog / Module.has_stog / the call site in Netlist loading: model Mod.createStog, hasStog, finish "
+    "(FV/Model/NetlistStog.lean, FV/Model/Netlist.lean); theorems module_createStog, netlist_load_createStog, "
+    "netlist_load_only_reorders, netlist_hasStog_iff, netlist_flip_has_stog; tie: route `module` also against drv_netlist op "
+    "`modstog` (returned value, has_stog, order and roles), the netlist route through C04 / C05 (`S` field = has_stog)",
     "harness (Python) and compiled Lean driver: parsing, canonicalisation, comparison",
 ]
 
@@ -228,6 +232,8 @@ def one_list(ctx: Ctx, mode: str, route: str, eps, epsA, rdicts, reqs, todo, kin
         else:
             impl = f"{int(ret)} {rects_out(after, mode)}"
             tie = spec_on_impl(ctx, inp, mode, e, ea, rdicts, [bb(d) for d in rdicts], [id(o) for o in objs], ret, after)
+            if route == "module":
+                module_model_request(ctx, inp, mode, e, ea, rdicts, ret, after, tie)
         reqs.append(request(mode, e, ea, rdicts))
         todo.append((inp, impl, tie))
     ctx.count("route:" + route)
@@ -235,6 +241,43 @@ def one_list(ctx: Ctx, mode: str, route: str, eps, epsA, rdicts, reqs, todo, kin
     ctx.count("verdict:" + impl[:1])
     ctx.case(mode, (route, eps, epsA, [tuple(sorted(d.items())) for d in rdicts]), nontrivial=n >= 2,
              sample={"mode": mode, "route": route, "eps": eps, "epsA": epsA, "rects": rdicts, "impl": impl})
+
+
+def module_model_request(ctx: Ctx, inp, mode, eps, epsA, rdicts, ret, after, tie) -> None:
+    """`Module.create_stog()` / `has_stog` against `Mod.createStog` / `hasStog` of the NETLIST model (drv_netlist, op
+    `modstog`: the tagged rectangles of a module, `FV/Model/NetlistStog.lean`) — the model the C06 netlist-level theorems
+    (`module_createStog`, `netlist_load_createStog`) are about."""
+    import netlist_common as nc
+    flags = {(bool(d["fixed"]), bool(d["hard"])) for d in rdicts}
+    if len(flags) > 1 or any(d["cx"] < 0 or d["cy"] < 0 for d in rdicts):
+        return                  # the reader gives every rectangle of a module the module's flags / refuses negative centres
+    fx, hd = next(iter(flags)) if flags else (False, False)
+    if (fx or hd) and any(d["region"] != "_" for d in rdicts):
+        return
+    tree = [[float(d["cx"]), float(d["cy"]), float(d["w"]), float(d["h"])] + ([d["region"]] if d["region"] != "_" else [])
+            for d in rdicts]
+    req = f"{mode} modstog E {nc.sc(eps, mode)} {nc.sc(epsA, mode)} {int(fx)} {int(hd)} {nc.enc_tree(tree, mode)}"
+    has = bool(after) and after[0].location == Rectangle.StogLocation.TRUNK      # what `Module.has_stog` reads
+    impl = f"ok {int(ret)} {int(has)} R {len(after)}" + "".join(" " + nc.render_rect(r, mode) for r in after)
+    if not hasattr(ctx, "_modstog"):
+        ctx._modstog = []
+    ctx._modstog.append((req, inp, impl, tie))
+
+
+def compare_modstog(ctx: Ctx) -> None:
+    items = getattr(ctx, "_modstog", [])
+    if not items:
+        return
+    replies = ctx.model([r for r, _, _, _ in items], exe="drv_netlist")
+    if replies is None:
+        ctx.notes.append("drv_netlist unavailable: Module.create_stog not compared with the netlist model")
+        return
+    for (req, inp, impl, tie), model in zip(items, replies):
+        ctx.count("modstog:compared")
+        if impl == model or (inp["mode"] == "F" and tie):
+            continue
+        ctx.disagree("Module.create_stog", inp, impl, model, size=len(inp["rects"]))
+    ctx._modstog = []
 
 
 def _spec_values(ctx, inp, mode, eps, epsA, rdicts, boxes, has, after, roles) -> bool:
@@ -460,6 +503,7 @@ def run(ctx: Ctx) -> None:
         ctx.notes.append("model driver unavailable: correspondence not run")
         return
     compare(ctx, todo, replies)
+    compare_modstog(ctx)
 
 
 def compare(ctx: Ctx, todo, replies) -> None:
@@ -493,3 +537,4 @@ def replay(ctx: Ctx, body: dict) -> None:
     replies = ctx.model(reqs)
     if replies:
         compare(ctx, todo, replies)
+    compare_modstog(ctx)
